@@ -12,6 +12,9 @@ use ckc_rs::deck::{Deck, DECK_SIZE, POKER_DECK};
 #[cfg_attr(kani, kani::proof)]
 #[cfg_attr(kani, kani::unwind(53))]
 pub fn c18_deck() {
+    let i0 = sym::usize();
+    // priming call on an unrelated arbitrary input: a memo / cache in front of a pure function would show here
+    let _ = Deck::get(i0);
     let i = sym::usize();
     if i < 52 {
         let w = word(12 - (i as u32) % 13, 3 - (i as u32) / 13);
@@ -90,6 +93,17 @@ pub fn c18_presets() {
     cover!(i == 15, "last AK entry");
 }
 
+fn lex_less(p: [u8; 5], q: [u8; 5]) -> bool {
+    let mut k = 0;
+    while k < 5 {
+        if p[k] != q[k] {
+            return p[k] < q[k];
+        }
+        k += 1;
+    }
+    false
+}
+
 /// slot-index tables: every strictly increasing in-range tuple occurs exactly once, rows increasing
 #[cfg_attr(kani, kani::proof)]
 #[cfg_attr(kani, kani::unwind(23))]
@@ -109,6 +123,13 @@ pub fn c18_slot_tables() {
         i += 1;
     }
     check!(n == 1, "every 2-of-4 slot combination occurs exactly once");
+    // rows listed in increasing (lexicographic) order
+    let mut i = 0;
+    while i + 1 < 6 {
+        let (p, q) = (Four::OMAHA_PERMUTATIONS[i], Four::OMAHA_PERMUTATIONS[i + 1]);
+        check!(p[0] < q[0] || (p[0] == q[0] && p[1] < q[1]), "2-of-4 rows are listed in increasing order");
+        i += 1;
+    }
     // 5-of-6 and 5-of-7
     let t = [sym::u8(), sym::u8(), sym::u8(), sym::u8(), sym::u8()];
     sym::assume(t[0] < t[1] && t[1] < t[2] && t[2] < t[3] && t[3] < t[4] && t[4] < 7);
@@ -123,6 +144,16 @@ pub fn c18_slot_tables() {
         i += 1;
     }
     check!(n7 == 1, "every 5-of-7 slot combination occurs exactly once");
+    let mut i = 0;
+    while i + 1 < 21 {
+        check!(lex_less(Seven::FIVE_CARD_PERMUTATIONS[i], Seven::FIVE_CARD_PERMUTATIONS[i + 1]), "5-of-7 rows are listed in increasing order");
+        i += 1;
+    }
+    let mut i = 0;
+    while i + 1 < 6 {
+        check!(lex_less(Six::FIVE_CARD_PERMUTATIONS[i], Six::FIVE_CARD_PERMUTATIONS[i + 1]), "5-of-6 rows are listed in increasing order");
+        i += 1;
+    }
     if t[4] < 6 {
         let mut n6 = 0;
         let mut i = 0;
